@@ -13,11 +13,32 @@
      burg_k_le_1         |k_m|^2 <= 1 at every non-degenerate stage (Cauchy-Schwarz)
      burg_rho_monotone   rho >= 0 and rho_{m+1} <= rho_m
      burg_rho_nonneg     rho_m >= 0 at every order
-   NOT PROVED: stability of the step-up polynomial (root location needs an algebraically closed
-   field): search only.  Strict |k| < 1 is not claimed by the property (modulus <= 1). *)
+     arburg_stable       STABILITY: every root z (in the field) of z^p + a_1 z^(p-1) + .. + a_p, a the returned AR
+                         vector, has |z|^2 < 1.  No algebraic closure needed: a = stepup(ks) and every stage variance
+                         rho_m passed the code's "rho <= 0" test, so the inverse-Levinson lags of (rho_0, ks) are a
+                         Hermitian sequence whose Levinson stage errors are the rho_m > 0; by the LDL^H converse
+                         (Proofs/LevinsonPDConverse.v: positive stage errors => positive definite) and C12's
+                         pd_root_inside the roots lie in the open disc
+     arburg_stable_criteria  the same with ANY order-selection rule (degree = number of returned coefficients)
+     arburg_k_lt_1       a returned model (>= 1 coefficient) has every stage variance rho_m > 0, rho > 0 and
+                         |k_j|^2 < 1 STRICTLY (the property asks for <= 1)
+     stepup_stable       any reflection coefficients with |k_j|^2 < 1: the step-up (rc2poly) polynomial is stable
+     arburg_stable_ext   data in F, roots in ANY ordered *-field K that F maps into by an order-preserving
+                         conj-compatible ring homomorphism; axiom-free
+     arburg_stable_complex  data in the Gaussian rationals (the instance the correspondence check executes), any stop
+                         rule: EVERY complex root has Cmod z < 1 (K = Coquelicot's C; uses the standard-library axioms
+                         of the real numbers, printed below — the only theorems of this file that do)
+     arburg_stable_C     data in C itself: every complex root has Cmod z < 1 (same axioms)
+   The stability theorems carry the property's guard "non-degenerate prediction error" (burg_nondegenerate: no stage
+   denominator is zero) because at a degenerate stage the model's k is the totalised 0/0 = 0 while the code produces
+   nan; their proofs (Proofs/BurgStable.v, *_thm) do not use it.
+   NOT PROVED: nothing of the statement's clauses in exact arithmetic; rounding of the binary64 code is outside the
+   theorems (correspondence with 1e-9*kappa tolerances + search, incl. numpy.roots of the returned polynomial). *)
 Require Import Spectrum.Theory.Ops Spectrum.Theory.Sum Spectrum.Theory.Vec Spectrum.Model.Levinson Spectrum.Model.Burg
                Spectrum.Proofs.LevinsonTheory Spectrum.Proofs.BurgStage Spectrum.Proofs.BurgTheory Spectrum.Proofs.BurgDen
-               Spectrum.Theory.Order Spectrum.Proofs.BurgOrder Spectrum.Instances.QcC Spectrum.Instances.QcCOrd.
+               Spectrum.Theory.Order Spectrum.Proofs.BurgOrder Spectrum.Proofs.YulePD Spectrum.Proofs.YuleExt
+               Spectrum.Proofs.BurgStable Spectrum.Proofs.BurgStableExt
+               Spectrum.Instances.QcC Spectrum.Instances.QcCOrd.
 From Coq Require Import QArith Qcanon.
 
 Section C13.
@@ -75,7 +96,49 @@ Proof. exact (burg_rho_monotone_thm x m st st'). Qed.
 Theorem burg_rho_nonneg (x : list F) m st :
   (m < length x)%nat -> burg_nondegenerate x m -> burg_iter no_stop x m = BCont st -> nonneg (b_rho st).
 Proof. exact (burg_rho_nonneg_thm x m st). Qed.
+
+Theorem arburg_stable (x : list F) p a rho ref (z : F) :
+  burg_nondegenerate x p ->
+  arburg x p no_stop = Some (a, rho, ref) ->
+  sumf (S p) (fun j => afun a j * fpow z (p - j)) = 0 -> lt (nrm2 z) 1.
+Proof. intros _. exact (arburg_stable_thm x p a rho ref z). Qed.
+
+Theorem arburg_stable_criteria (x : list F) p stop a rho ref (z : F) :
+  burg_nondegenerate x p ->
+  arburg x p stop = Some (a, rho, ref) ->
+  sumf (S (length ref)) (fun j => afun a j * fpow z (length ref - j)) = 0 -> lt (nrm2 z) 1.
+Proof. intros _. exact (arburg_stable_criteria_thm x p stop a rho ref z). Qed.
+
+Theorem arburg_k_lt_1 (x : list F) p stop a rho ref :
+  burg_nondegenerate x p ->
+  arburg x p stop = Some (a, rho, ref) -> (1 <= length ref)%nat ->
+  (forall q, (q <= length ref)%nat -> pos (mean_power x * prodk (firstn q ref)))
+  /\ pos rho
+  /\ forall j, (j < length ref)%nat -> lt (nrm2 (nthF ref j)) 1.
+Proof. intros _. exact (arburg_k_lt_1_thm x p stop a rho ref). Qed.
+
+Theorem stepup_stable (ks : list F) (z : F) :
+  (forall j, (j < length ks)%nat -> lt (nrm2 (nthF ks j)) 1) ->
+  sumf (S (length ks)) (fun j => afun (stepup_all ks) j * fpow z (length ks - j)) = 0 -> lt (nrm2 z) 1.
+Proof. exact (refl_lt1_stable_thm ks z). Qed.
 End C13_order.
+
+(* data in F, roots in an ordered extension K *)
+Section C13ext.
+Context {F : Type} {OF : Ops F} {L : Laws OF} {OL : OrdLaws OF}.
+Context {K : Type} {OK : Ops K} {LK : Laws OK} {OLK : OrdLaws OK}.
+Local Open Scope F_scope.
+Theorem arburg_stable_ext (phi : F -> K) (x : list F) p stop a rho ref (z : K) :
+  phi 0 = 0 -> phi 1 = 1 -> (forall u v, phi (u + v) = phi u + phi v) -> (forall u v, phi (u * v) = phi u * phi v) ->
+  (forall u, phi (conj u) = conj (phi u)) -> (forall u, nonneg u -> nonneg (phi u)) ->
+  burg_nondegenerate x p ->
+  arburg x p stop = Some (a, rho, ref) ->
+  sumf (S (length ref)) (fun j => phi (afun a j) * fpow z (length ref - j)) = 0 -> lt (nrm2 z) 1.
+Proof.
+  intros h0 h1 ha hm hc ho _.
+  exact (arburg_stable_ext_thm phi (mkHom phi h0 h1 ha hm hc) ho x p stop a rho ref z).
+Qed.
+End C13ext.
 
 (* non-vacuity: a concrete complex sequence runs through three non-degenerate stages *)
 Definition ex_x : list QcC := [cz (1,0) (0,0); cz (1,1) (1,0); cz (-1,0) (1,-1); cz (3,-1) (0,0); cz (1,0) (-1,0); cz (-1,-1) (1,-2)]%Z.
@@ -88,6 +151,45 @@ Proof.
   vm_compute; intro E; inversion E.
 Qed.
 
+Lemma ex_nondegenerate_1 : @burg_nondegenerate _ qcc_ops ex_x 1.
+Proof. intros q st Hq. apply burg_nondegenerate_example. lia. Qed.
+
+(* non-vacuity of the stability clause: the order-1 polynomial z + a_1 has its root -a_1 in the field, and the theorem
+   (instantiated at the executed instance, qcc_ord) puts it inside the unit circle *)
+Example arburg_stable_example :
+  exists a rho ref z, @arburg _ qcc_ops ex_x 1 no_stop = Some (a, rho, ref)
+    /\ sumf (OF:=qcc_ops) 2 (fun j => mul (Ops:=qcc_ops) (afun (OF:=qcc_ops) a j) (fpow (OF:=qcc_ops) z (1 - j))) = zero (Ops:=qcc_ops)
+    /\ lt (OF:=qcc_ops) (OL:=qcc_ord) (nrm2 (OF:=qcc_ops) z) (one (Ops:=qcc_ops)).
+Proof.
+  destruct (@arburg _ qcc_ops ex_x 1 no_stop) as [[[a rho] ref]|] eqn:E; [|vm_compute in E; discriminate].
+  exists a, rho, ref, (opp (Ops:=qcc_ops) (nthF (OF:=qcc_ops) a 0)).
+  assert (Hroot : sumf (OF:=qcc_ops) 2 (fun j => mul (Ops:=qcc_ops) (afun (OF:=qcc_ops) a j)
+                    (fpow (OF:=qcc_ops) (opp (Ops:=qcc_ops) (nthF (OF:=qcc_ops) a 0)) (1 - j))) = zero (Ops:=qcc_ops)).
+  { exact (polyval_order1 (L:=qcc_laws) a). }
+  split; [reflexivity|]. split; [exact Hroot|].
+  exact (arburg_stable (L:=qcc_laws) (OL:=qcc_ord) ex_x 1 a rho ref _ ex_nondegenerate_1 E Hroot).
+Qed.
+
+(* ---------- all complex roots (Coquelicot's C; standard-library real-number axioms) ---------- *)
+Require Import Spectrum.Instances.Cplx_C12 Spectrum.Proofs.BurgComplex.
+From Coq Require Import Reals.
+From Coquelicot Require Import Complex.
+
+Theorem arburg_stable_complex (x : list QcC) (p : nat) (stop : nat -> QcC -> QcC -> bool)
+        (a : list QcC) (rho : QcC) (ref : list QcC) (z : C) :
+  @burg_nondegenerate _ qcc_ops x p ->
+  arburg (OF:=qcc_ops) x p stop = Some (a, rho, ref) ->
+  sumf (OF:=c_ops) (S (length ref)) (fun j => Cmult (qcc_to_c (afun (OF:=qcc_ops) a j)) (fpow (OF:=c_ops) z (length ref - j))) = RtoC 0 ->
+  (Cmod z < 1)%R.
+Proof. intros _. exact (arburg_stable_complex_thm x p stop a rho ref z). Qed.
+
+Theorem arburg_stable_C (x : list C) (p : nat) (stop : nat -> C -> C -> bool) (a : list C) (rho : C) (ref : list C) (z : C) :
+  @burg_nondegenerate _ c_ops x p ->
+  arburg (OF:=c_ops) x p stop = Some (a, rho, ref) ->
+  sumf (OF:=c_ops) (S (length ref)) (fun j => Cmult (afun (OF:=c_ops) a j) (fpow (OF:=c_ops) z (length ref - j))) = RtoC 0 ->
+  (Cmod z < 1)%R.
+Proof. intros _. exact (arburg_stable_C_thm x p stop a rho ref z). Qed.
+
 Print Assumptions arburg_shape.
 Print Assumptions arburg_nested.
 Print Assumptions arburg_criteria.
@@ -96,3 +198,10 @@ Print Assumptions burg_k_optimal.
 Print Assumptions burg_k_le_1.
 Print Assumptions burg_rho_monotone.
 Print Assumptions burg_rho_nonneg.
+Print Assumptions arburg_stable.
+Print Assumptions arburg_stable_criteria.
+Print Assumptions arburg_k_lt_1.
+Print Assumptions stepup_stable.
+Print Assumptions arburg_stable_ext.
+Print Assumptions arburg_stable_complex.
+Print Assumptions arburg_stable_C.
